@@ -292,7 +292,13 @@ func C14(v *View) []Violation {
 	if v.Set == nil || v.Monotonic || v.Paused || v.Deleting || !v.SelectorOK {
 		return nil
 	}
-	if v.Rec.Err != nil || v.Rec.Panic != nil || v.Rec.Crash {
+	if v.Rec.Panic != nil || v.Rec.Crash {
+		return nil
+	}
+	if v.Rec.Err != nil && !controllerMadeError(v.Rec) {
+		// "absent API errors": a reconcile cut short by a failed request (or by a refused adoption, which is the
+		// controller declining to act on a stale cache) is excused; an error the controller makes up itself although
+		// every request succeeded is not
 		return nil
 	}
 	creates, deletes := v.PodCalls()
@@ -322,6 +328,26 @@ func C14(v *View) []Violation {
 		out = append(out, viol("C14", "two-update-deletes", "%d update deletes in one reconcile", nC))
 	}
 	return out
+}
+
+// controllerMadeError: the reconcile returned an error although no request failed, no lookup failure was injected and
+// the error is not one of the documented refusals to act on a cache that disagrees with the API server.
+func controllerMadeError(rec *world.Rec) bool {
+	if rec.Err == nil || rec.LookupFailed {
+		return false
+	}
+	for _, c := range rec.Calls {
+		if c.Err != "" || c.Fault != "" {
+			return false
+		}
+	}
+	msg := rec.Err.Error()
+	for _, refusal := range []string{"is gone: got uid", "has just been deleted", "can't adopt", "can't recheck DeletionTimestamp"} {
+		if strings.Contains(msg, refusal) {
+			return false
+		}
+	}
+	return true
 }
 
 // C12: status writes.
